@@ -19,6 +19,8 @@ package overlay
 //@   ghost stored bool = false
 //@   ghost closedFresh bool = false
 //@   at call Lock#1: ghost locked := true
+//@   at after call Lock#1: havoc t.cachedConnections.m, t.cachedConnections.keys
+//@   at after call Lock#1: assume other-negotiations-may-have-cached-a-connection-meanwhile-entries-stay-existing-connections: forall k string {t.cachedConnections.m[k]} :: t.cachedConnections.keys[k] ==> (t.cachedConnections.m[k] != nil && allocated(t.cachedConnections.m[k]) && t.cachedConnections.m[k] != fresh)
 //@   at call Load#*: assert cache-is-read-under-the-peers-key: callarg1 == qKey
 //@   at after call Load#*: ghost lastLoaded := callresult0
 //@   at after call Load#*: ghost lastOk := callresult1
